@@ -181,7 +181,14 @@ def d_capture_limit(i: int, n: int, m: int, L: int) -> bool:
 # --------------------------------------------------------------------------------------------
 # D-C06-loop: loop iteration limit as a solver variable
 # --------------------------------------------------------------------------------------------
-LOOP_PARTS = {"p": "{% for j in (1..m) %}.{% endfor %}", "pp": "{% for j in (1..m) %}{% render 'p' %}{% endfor %}"}
+LOOP_PARTS = {
+    "p": "{% for j in (1..m) %}.{% endfor %}",
+    "pp": "{% for j in (1..m) %}{% render 'p' %}{% endfor %}",
+    "fwd": "({% render 'p' %})",  # a loop-free partial between two loops: the carry must pass through
+    "fwd2": "{% macro f %}{% render 'fwd' %}{% endmacro %}{% call f %}",
+    "base": "{% block b %}{% endblock %}",
+    "child": "{% extends 'base' %}{% block b %}{% render 'p' %}{% endblock %}",
+}
 
 
 class _LoopLimited(Environment):
@@ -195,6 +202,10 @@ LOOP_SRC = [
     ("{% for i in (1..n) %}{% include 'p' %}{% endfor %}", lambda n, m: max(n, n * m if n else 0)),
     ("{% macro mm %}{% for j in (1..m) %}.{% endfor %}{% endmacro %}{% for i in (1..n) %}{% call mm %}{% endfor %}", lambda n, m: max(n, n * m if n else 0)),
     ("{% for i in (1..n) %}{% render 'pp' %}{% endfor %}", lambda n, m: max(n, n * m if n else 0, n * m * m if (n and m) else 0)),
+    ("{% for i in (1..n) %}{% render 'fwd' %}{% endfor %}", lambda n, m: max(n, n * m if n else 0)),
+    ("{% for i in (1..n) %}{% render 'fwd2' %}{% endfor %}", lambda n, m: max(n, n * m if n else 0)),
+    ("{% macro g %}{% render 'fwd' %}{% endmacro %}{% for i in (1..n) %}{% call g %}{% endfor %}", lambda n, m: max(n, n * m if n else 0)),
+    ("{% for i in (1..n) %}{% render 'child' %}{% endfor %}", lambda n, m: max(n, n * m if n else 0)),
     ("{% for i in (1..n) %}{% capture c %}{% for j in (1..m) %}{% for k in (1..2) %}.{% endfor %}{% endfor %}{% endcapture %}{% endfor %}", lambda n, m: max(n, n * m if n else 0, n * m * 2 if (n and m) else 0)),
     ("{% for i in (1..n) %}{% if i == 1 %}{% for j in (1..m) %} {% endfor %}{% endif %}{% endfor %}{% tablerow r in (1..m) %}{% for i in (1..n) %}.{% endfor %}{% endtablerow %}".replace("{% tablerow r in (1..m) %}", "{% for r in (1..m) %}").replace("{% endtablerow %}", "{% endfor %}"),
      lambda n, m: max(n, n * m if n else 0, m, m * n if m else 0)),
@@ -212,7 +223,7 @@ for _t in LOOP_T:
     timeout=240,
     shard={"i": list(range(len(LOOP_SRC)))},
     covers="loop_iteration_limit = L (solver variable): the render fails with LoopIterationLimitError iff the largest product of nested loop lengths - across render, include, macro call, capture and blank blocks - exceeds L; otherwise it succeeds",
-    bounds="7 loop nests (depth <= 3 across partial/macro boundaries); n, m in 0..3; L in 1..20",
+    bounds="11 loop nests (depth <= 3 across partial/macro/block boundaries, incl. loop-free forwarding partials and macros between two loops); n, m in 0..3; L in 1..20",
     grid=lambda: [(i, n, m, L) for i in range(len(LOOP_SRC)) for n in (0, 1, 3) for m in (0, 2, 3) for L in (1, 2, 3, 5, 6, 8, 9, 17, 18, 20)],
 )
 def d_loop_limit(i: int, n: int, m: int, L: int) -> bool:
